@@ -7,6 +7,7 @@ import (
 	"bytes"
 	"context"
 	"crypto/x509"
+	"encoding/hex"
 	"encoding/json"
 	"errors"
 	"fmt"
@@ -38,6 +39,8 @@ type Input struct {
 	Manager bool   `json:"manager"`
 	Sig     string `json:"sig"`
 	Fuzz    bool   `json:"fuzz"`
+	Label   string `json:"label"`
+	Data    string `json:"data"`
 }
 
 type Outcome struct {
@@ -269,9 +272,14 @@ func (w *world) fuzz(c *common.Ctx, n int) {
 	gen := func(a digest.Algorithm) (ocispec.Descriptor, error) {
 		return ocispec.Descriptor{Digest: a.FromBytes(blob), Size: int64(len(blob))}, nil
 	}
+	var curData []byte
 	emit := func(entry, label string, f func() bool) {
 		in := base
 		in.Entry = entry
+		in.Label = label
+		if len(curData) <= 8192 {
+			in.Data = hex.EncodeToString(curData)
+		}
 		consistent := true
 		p := w.guard(label, func() { consistent = f() })
 		if w.heapCheck() {
@@ -324,16 +332,19 @@ func (w *world) fuzz(c *common.Ctx, n int) {
 		switch k % 9 {
 		case 0:
 			sig := mutate(c, w.sigs["valid"])
+			curData = sig
 			emit("vVerify", "jws-envelope", func() bool {
 				return pair(v.Verify(ctx, target, sig, notation.VerifierVerifyOptions{ArtifactReference: ref + "@" + target.Digest.String(), SignatureMediaType: common.MediaJWS}))
 			})
 		case 1:
 			sig := mutate(c, cose)
+			curData = sig
 			emit("vVerify", "cose-envelope", func() bool {
 				return pair(v.Verify(ctx, target, sig, notation.VerifierVerifyOptions{ArtifactReference: ref + "@" + target.Digest.String(), SignatureMediaType: common.MediaCOSE}))
 			})
 		case 2:
 			sig := mutate(c, w.blobSigs["valid"])
+			curData = sig
 			emit("vVerifyBlob", "blob-envelope", func() bool {
 				return pair(bv.VerifyBlob(ctx, gen, sig, notation.BlobVerifierVerifyOptions{SignatureMediaType: common.MediaJWS, TrustPolicyName: "c12"}))
 			})
@@ -341,6 +352,7 @@ func (w *world) fuzz(c *common.Ctx, n int) {
 			// random bytes of random length as either format
 			rb := make([]byte, c.Rand.Intn(300))
 			c.Rand.Read(rb)
+			curData = rb
 			mt := common.MediaJWS
 			if k%2 == 1 {
 				mt = common.MediaCOSE
@@ -350,6 +362,7 @@ func (w *world) fuzz(c *common.Ctx, n int) {
 			})
 		case 4:
 			d := mutate(c, ociDoc)
+			curData = d
 			emit("parser", "oci-policy", func() bool {
 				var doc trustpolicy.OCIDocument
 				if json.Unmarshal(d, &doc) != nil {
@@ -367,6 +380,7 @@ func (w *world) fuzz(c *common.Ctx, n int) {
 			})
 		case 5:
 			d := mutate(c, blobDoc)
+			curData = d
 			emit("parser", "blob-policy", func() bool {
 				var doc trustpolicy.BlobDocument
 				if json.Unmarshal(d, &doc) != nil {
@@ -380,6 +394,7 @@ func (w *world) fuzz(c *common.Ctx, n int) {
 			})
 		case 6:
 			cj, kj := mutate(c, cfgJSON), mutate(c, keysJSON)
+			curData = append(append([]byte{}, cj...), kj...)
 			emit("parser", "config-files", func() bool {
 				os.WriteFile(filepath.Join(cfgDir, dir.PathConfigFile), cj, 0o644)
 				os.WriteFile(filepath.Join(cfgDir, dir.PathSigningKeys), kj, 0o644)
@@ -393,6 +408,7 @@ func (w *world) fuzz(c *common.Ctx, n int) {
 			})
 		case 7:
 			e := mutate(c, entry)
+			curData = e
 			emit("parser", "crl-cache-entry", func() bool {
 				url := fmt.Sprintf("http://example/crl/%d", k)
 				if err := cache.Set(ctx, url, nil); err == nil {
@@ -407,6 +423,7 @@ func (w *world) fuzz(c *common.Ctx, n int) {
 			})
 		default:
 			pm := mutate(c, pemBytes)
+			curData = pm
 			emit("parser", "trust-store-file", func() bool {
 				os.WriteFile(filepath.Join(storeDir, "cert.pem"), pm, 0o644)
 				certs, err := ts.GetCertificates(ctx, truststore.TypeCA, "s")
@@ -422,6 +439,10 @@ func (w *world) fuzz(c *common.Ctx, n int) {
 // Run: the full configuration matrix, then the malformed-input stream.
 func Run(c *common.Ctx) error {
 	w := newWorld()
+	if os.Getenv("XVERIF_C12_CHILD") != "" {
+		w.sweepRegistry(c) // child mode: one hostile-registry case, then exit
+		return nil
+	}
 	stmts := []string{"missing", "noMatch", "skip", "enforce"}
 	for _, entry := range []string{"vVerify", "vVerifyBlob", "skipVerify", "nVerify", "nVerifyBlob", "userMetadata", "nilArgs"} {
 		for _, oci := range stmts {
@@ -449,9 +470,15 @@ func Run(c *common.Ctx) error {
 		n = 90000
 	}
 	w.fuzz(c, n)
+	sweepN := 2500
+	if c.Thorough() {
+		sweepN = 0 // the full product
+	}
+	w.sweepVerifier(c, sweepN)
+	w.sweepRegistry(c)
 	for _, p := range w.panics {
 		c.Note("panic: %s", p)
 	}
-	c.Note("configuration matrix: 7 entry points x OCI document {missing, no match, skip, enforce} x blob document (same) x plugin manager {nil, present} x signature {valid, garbage, demands a missing plugin} (exhaustive); malformed-input stream (sampled, fuzz-style): mutated JWS/COSE envelopes, random bytes, OCI/blob policy JSON, config.json / signingkeys.json, CRL cache entries, trust store files; heap high-water mark %d MiB", w.maxHeap>>20)
+	c.Note("configuration matrix: 7 entry points x OCI document {missing, no match, skip, enforce} x blob document (same) x plugin manager {nil, present} x signature {valid, garbage, demands a missing plugin} (exhaustive); malformed-input stream (sampled, fuzz-style): mutated JWS/COSE envelopes, random bytes, OCI/blob policy JSON, config.json / signingkeys.json, CRL cache entries, trust store files; verifier configuration sweep (valid-but-unusual signatures: countersigned, numeric COSE labels, plugin attributes x plugin manager / plugin answers x revocation options x tsa policies; verdict not modelled, only no-panic + pair consistency); hostile OCI layout sweep (lying layer sizes up to 2^63-1, null fields, hand-made descriptors) through ListSignatures / FetchSignatureBlob / notation.Verify; heap high-water mark %d MiB", w.maxHeap>>20)
 	return nil
 }
